@@ -38,8 +38,9 @@ ASSUMPTIONS = ["each structured program is rendered as Python source twice and e
                "place a list object that is reachable under two names (aliased variables, references taken before a block) except in the fixed program of the "
                "known finding C09-list-inplace-through-reference; `ref` statements and the `range` objects bound to a name (bound = an input) have no "
                "counterpart in the model line",
-               "the typed generator does not use a tracked boolean as a boolean after a block has been left (the merge demotes it to a plain LinComb: "
-               "C09_cex_boolean_demoted; a fixed probe records what the library does with it), compares integers with integers only, and keeps list lengths fixed "
+               "the typed generator uses tracked booleans as booleans wherever they are in scope, also after blocks, in the later arms of a chain, in loop "
+               "bodies and in loop/break conditions (a selection between two booleans is a boolean: repaired finding C09-boolean-demoted, fixed program "
+               "BOOL_PROBE, C09_boolean_kept_regression); it compares integers with integers only, and keeps list lengths fixed "
                "(if_then_else zips lists: a length change is silently truncated; the model stops with UNMODELLED there)"]
 PARTIAL = [{"theorem": "C09_refines", "excludes": "nothing inside the statement language (tracked variables of integer, boolean, fixed-point and nested-list kind, mixed-kind "
             "merges, element assignment, value-level and thunked selection, if/elif/else, for, while, any nesting, all values): when the traced run completes "
@@ -50,13 +51,16 @@ PARTIAL = [{"theorem": "C09_refines", "excludes": "nothing inside the statement 
            {"theorem": "C09_refines_int", "excludes": "corollary for integer variables and inputs"},
            {"theorem": "C09_guard_restored", "excludes": "nothing: every completed run / statement, whatever the guard and the conditions are"},
            {"theorem": "C09_untouched", "excludes": "object identity is claimed for secret integers and lists of them only: a boolean or fixed-point variable is re-created by the "
-            "snapshot (copy.deepcopy) and comes out of the merge as a new object — C09_untouched_value states what is kept for those (the number; booleans stay 0/1), "
-            "under a true guard"},
+            "snapshot (copy.deepcopy) and comes out of the merge as a new object — C09_untouched_value states what is kept for those (the number, booleans stay "
+            "0/1: under a true guard; the types: whatever the guard is)"},
+           {"theorem": "C09_kind_kept", "excludes": "nothing for variables holding secrets (every tracked variable of the statement language does): a variable that a statement "
+            "or block does not assign keeps its types (LinComb / LinCombBool / LinCombFxp, lists element-wise), whatever the guard is and wherever the conditions go; "
+            "C09_boolean_usable: hence a tracked boolean is accepted as the condition of a later block; variables assigned inside an arm take the kind of the merge"},
            {"theorem": "C09_sat", "excludes": "nothing (any prime modulus, any bit length and resolution, run started without a guard)"},
            {"theorem": "C09_oblivious", "excludes": "nothing (two completed runs from states of the same shape, initial values of the same shape)"},
            {"theorem": "C09_cex_negative_bound", "excludes": "closed counterexample: a negative secret bound runs max rounds where range(bound) runs none"},
-           {"theorem": "C09_cex_boolean_demoted", "excludes": "closed example: an untouched tracked LinCombBool leaves a block as a plain LinComb (one more constraint per merge); "
-            "using it as a block condition afterwards is rejected"}]
+           {"theorem": "C09_boolean_kept_regression", "excludes": "closed regression example of the repaired finding C09-boolean-demoted: an untouched tracked LinCombBool "
+            "leaves a block as a LinCombBool (same constraint count as before the repair) and is then used as the condition of a second block, which gives the native result"}]
 TRUSTED_EXTRA = ["harness/worker_block.py renders the structured program as Python source for the real run; Driver/ProtoBlock.lean parses the same "
                  "program for the model (parser not verified; a parse difference shows up as a correspondence disagreement)",
                  "object identity (`truev is falsev` in if_then_else) is modelled by identity stamps on scalars (deep copies of LinCombBool/LinCombFxp: a stamp "
@@ -486,8 +490,10 @@ def diff_model(api, m):
 NEG_BOUND = {"init": {"x0": 3}, "secret_vars": ["x0"], "inputs": [-1], "stream": "uncapped", "feature": "negative-for-bound",
              "body": [["for", "i0", ["in", 0], 2, [["assign", "x0", ["add", ["var", "x0"], ["const", 1]]]]]]}
 
-# a tracked boolean used as a block condition after it has lived through a block: the merge at the block exit has turned it into a
-# plain LinComb (C09_cex_boolean_demoted); what the library does with it then is recorded in the distribution (not a generated scenario)
+# a tracked boolean used as a block condition after it has lived through a block (regression program of the repaired finding
+# C09-boolean-demoted: before the repair the merge at the block exit turned it into a plain LinComb and the second block raised
+# RuntimeError('Wrong type for if_then_else condition')); C09_boolean_kept_regression is the same run in the model.  It is one of the
+# fixed programs (direct oracle, native twin, model correspondence) and is also reported on its own when the library raises
 BOOL_PROBE = {"typed": True, "stream": "typed", "kinds": {"x0": "bool", "x1": "int"}, "init": {"x0": 1, "x1": 5}, "secret_vars": ["x0", "x1"],
               "inputs": [0], "finputs": [],
               "body": [["if", [[["eq", ["in", 0], ["const", 1]], [["assign", "x1", ["add", ["var", "x1"], ["const", 1]]]]]], None],
@@ -517,6 +523,7 @@ def explore(ctx, extended=False, focus=None):
     for p in progs_:
         fix_for_bounds(p, ctx.rnd)
     progs_.append(json.loads(json.dumps(NEG_BOUND)))
+    progs_.append(json.loads(json.dumps(BOOL_PROBE)))
     progs_ += checkstop_progs(ctx.rnd)        # inputs fixed on purpose: bound = maximum, every enclosing branch taken
     while len(progs_) < n:
         r = ctx.rnd.random()
@@ -554,10 +561,11 @@ def explore(ctx, extended=False, focus=None):
     bmodel = parse_model(common.lean_driver([model_line("bprobe", BOOL_PROBE)])[0]) if okb else {"status": "skipped"}
     ex.count(f"boolean-condition-after-block:impl={bprobe.get('api', {}).get('status')}:native={bprobe.get('native', {}).get('status')}:model={bmodel['status']}")
     if bprobe.get("api", {}).get("status") not in ("ok", None) and bprobe.get("native", {}).get("status") == "ok":
-        # a genuine deviation of the real code, reproduced on every run by this fixed probe (listed: C09-boolean-demoted)
+        # the repaired finding C09-boolean-demoted is back: the model (C09_boolean_usable) and the native twin run this program
         ex.violations.append(Violation({"dev": "raises", "error": str(bprobe["api"]["status"]), "feature": "boolean-condition-after-block"},
                                        f"a tracked boolean used as a block condition after an earlier block raises {bprobe['api']['status']} where native "
-                                       f"control flow completes (the merge at block exit turns every tracked LinCombBool into a plain LinComb)",
+                                       f"control flow completes and the model runs ({bmodel['status']}): the merge at a block exit must return a LinCombBool "
+                                       f"for a tracked LinCombBool (if_then_else on two booleans)",
                                        {"program": BOOL_PROBE}))
     # a block that rebinds a tracked list to a list of another length: the element-wise merge zips to the shorter one
     LEN_PROBE = "LEN"
@@ -572,9 +580,6 @@ def explore(ctx, extended=False, focus=None):
             ex.violations.append(Violation({"dev": "wrong-value", "feature": "list-length-change"},
                                            f"`if c: l = [7, 8, 9]` on a tracked list of two elements ends with {lpd.get('taken')} for c = 1 (native [7, 8, 9]): "
                                            f"the merge zips the two lists and silently truncates", {"probe": "LEN", "observed": lpd}))
-    if bprobe.get("api", {}).get("status") == "ok":
-        ex.notes.append("a tracked boolean is now usable as a block condition after a block (the merge no longer demotes it): C09_cex_boolean_demoted and the "
-                        "generator's avoidance rule can go")
     if probe.get("api", {}).get("status") != "RuntimeError":
         ex.notes.append(f"a raw LinComb block condition is no longer rejected: {probe.get('api')}")
     for i, (p, o) in enumerate(zip(progs_, outs)):
